@@ -62,8 +62,12 @@ def make_scene(d, rng):
     snr_db = d.choice([40, 50, 60])
     p_src = np.mean(np.abs(images.sum(0)) ** 2)
     noise = gen.cnormal(rng, (F, D, T)) * np.sqrt(p_src * 10 ** (-snr_db / 10))
+    # overall recording level (a quiet or a loud recording: the property does
+    # not depend on it, every stage normalises or is scale invariant)
+    level = 10.0 ** d.aux(171).uniform(-4, 2) if d.aux(172).integers(0, 2) else 1.0
+    images, noise = images * level, noise * level
     return dict(K=K, D=D, F=F, T=T, lab=lab, images=images, noise=noise,
-                X=images.sum(0) + noise, snr_db=snr_db)
+                X=images.sum(0) + noise, snr_db=snr_db, level=level)
 
 
 _ALIGNERS = {}
@@ -147,7 +151,8 @@ def pipeline(d, ctx):
     Y = np.transpose(sc['X'], (0, 2, 1))                                  # (F, T, D)
     iterations = d.choice([5, 10, 20])
     ctx.describe(K=K, D=D, F=F, T=T, model=model_kind, plan=plan_name,
-                 field=fk, beta=beta, iterations=iterations, snr_db=sc['snr_db'])
+                 field=fk, beta=beta, iterations=iterations, snr_db=sc['snr_db'],
+                 level=sc['level'])
     ctx.label(model_kind, f'F={F}', f'K={K}', fk, plan_name.split('-')[0],
               'metric=' + plan_name.split('-')[-1])
     trainer = CACGMMTrainer() if model_kind == 'cacgmm' else CWMMTrainer()
